@@ -190,7 +190,7 @@ BAD_KINDS = ["regex", "cmp", "other", "intkey", "nonekey", "boolkey", "tuplekey"
 
 def plant(rng, v, kind):
     """put one unsupported leaf somewhere in v (returns a new value)"""
-    leaf = {"regex": {"r": rng.choice(pv.REGEXES)}, "cmp": {"c": 1}, "other": {"o": "Unknown"}, "partial": {"p": 1},
+    leaf = {"regex": {"r": rng.choice(pv.REGEXES)}, "cmp": {"c": [rng.choice(["less_than", "equal_greater_than", "not_equal_to"]), rng.choice([{"i": 3}, {"f": [5, 1]}, True])]}, "other": {"o": "Unknown"}, "partial": {"p": 1},
             "intkey": {"d": [[{"i": rng.choice([1, 0, -2])}, {"s": "a"}], [{"s": "k"}, {"i": 1}]]},
             "nonekey": {"d": [[None, {"i": 3}], [{"s": "s"}, {"r": ["a+", 32]}]]}, "boolkey": {"d": [[True, {"i": 4}]]},
             "tuplekey": {"d": [[{"T": rng.choice([[], [{"i": 1}, {"s": "b"}], [None, True]])}, {"i": 5}], [{"i": 7}, {"l": [{"s": "x"}]}]]},
@@ -686,10 +686,10 @@ def run_ser(case):
         obs["enc_msg"] = str(e)[:120]
         return obs
     try:
-        lab, ids = pv.to_lab(obj)
-        obs["lab"] = lab
-        obs["skeleton"] = pv.enc_skeleton(d, ids)
-    except Exception:  # noqa  -- e.g. raw action payloads the abstract model does not traverse
+        cv, ids = pv.to_cv(obj)
+        obs["cv"] = cv
+        obs["enc_refs"] = pv.real_encoding_normal_form(d, ids)
+    except Exception:  # noqa  -- a value outside the labelled universe (functools.partial leaves are fine, unknown classes are not)
         pass
     parsed = json.loads(text)
     if '"__id"' not in text:
@@ -883,6 +883,14 @@ def _graph_diff(a, b):
 
     Action = _M["flows"].Action
     fwd, bwd = {}, {}
+    # containers that live inside the payload of an Action (region of the open finding "action-payload-not-json")
+    payload_ids = set()
+    todo = [v for act in getattr(a, "actions", {}).values() for v in (act.context, act.start_event_arguments)]
+    while todo:
+        z = todo.pop()
+        if isinstance(z, (dict, list, tuple, set)) and id(z) not in payload_ids:
+            payload_ids.add(id(z))
+            todo.extend(z.values() if isinstance(z, dict) else z)
     stack = [(a, b, "state", False)]
     n = 0
     while stack:
@@ -899,11 +907,6 @@ def _graph_diff(a, b):
             if x != y and not (isinstance(x, float) and x != x):
                 return f"{path}: {x!r} vs {y!r}"
             continue
-        if isinstance(x, list):
-            if len(x) != len(y):
-                return f"{path}: list length {len(x)} vs {len(y)}"
-            stack.extend((x[i], y[i], f"{path}[{i}]", raw) for i in range(len(x)))
-            continue
         if isinstance(x, (Enum, datetime)):
             if x != y:
                 return f"{path}: {x} vs {y}"
@@ -916,18 +919,22 @@ def _graph_diff(a, b):
             # objects inside Action.to_dict() payloads are written raw (no refs): compared by value only
             if id(x) in fwd or id(y) in bwd:
                 if fwd.get(id(x)) != id(y) or bwd.get(id(y)) != id(x):
-                    return f"{path}: sharing differs ({type(x).__name__})"
+                    return f"{path}: sharing differs ({type(x).__name__})" + (" <action>" if id(x) in payload_ids else "")
                 continue
             fwd[id(x)] = id(y)
             bwd[id(y)] = id(x)
-        if isinstance(x, dict):
+        if isinstance(x, list):
+            if len(x) != len(y):
+                return f"{path}: list length {len(x)} vs {len(y)}"
+            stack.extend((x[i], y[i], f"{path}[{i}]", raw) for i in range(len(x)))
+        elif isinstance(x, dict):
             if list(x.keys()) != list(y.keys()):
                 return f"{path}: dict keys {list(x.keys())[:6]} vs {list(y.keys())[:6]}"
             stack.extend((x[k], y[k], f"{path}[{k!r}]", raw) for k in x)
         elif is_dataclass(x):
             stack.extend((getattr(x, f), getattr(y, f), f"{path}.{f}", raw) for f in x.__dataclass_fields__.keys())
         elif isinstance(x, Action):
-            stack.extend((getattr(x, f), getattr(y, f), f"{path}.{f}", f in ("context", "start_event_arguments")) for f in ("uid", "name", "flow_uid", "status", "context", "start_event_arguments", "flow_scope_count"))
+            stack.extend((getattr(x, f), getattr(y, f), f"{path}.<action>.{f}", False) for f in ("uid", "name", "flow_uid", "status", "context", "start_event_arguments", "flow_scope_count"))
         elif isinstance(x, set):
             if x != y:
                 return f"{path}: set {x} vs {y}"
@@ -1052,8 +1059,8 @@ def run_e2e(case):
 def model_requests(case, obs):
     if case["kind"] == "ser":
         reqs = [{"m": "C11.ser", "v": obs["seen"]}]
-        if "lab" in obs:
-            reqs.append({"m": "C11.refs", "t": obs["lab"]})
+        if "cv" in obs:
+            reqs.append({"m": "C11.shared", "t": obs["cv"]})
         return reqs
     if case["kind"] == "cleanup":
         return [{"m": "C11.cleanup", "now": case["now"], "flows": case["flows"], "idx": case["idx"], "actions": case["actions"]}]
@@ -1084,13 +1091,14 @@ def compare(case, obs, mouts):
             return "decoded value differs from Serialize.norm (theorem roundtrip_lossy): impl " + json.dumps(obs["dec"])[:300] + " norm " + json.dumps(m["norm"])[:300]
         if m["encodable"] and pv.canon(m["dec"]["ok"]) != pv.canon(obs["seen"]):
             return "model: Encodable but round trip not identity (theorem roundtrip_tree contradicted by the driver?)"
-        if len(mouts) > 1 and "skeleton" in obs:
-            # T2 tie: which occurrence is a definition, which a reference (and to what), which definitions carry an __id
-            d = pv.skeleton_diff(obs["skeleton"], mouts[1]["enc"])
-            if d:
-                return "encoder refs discipline differs from Refs.encodeS: " + d
-            if not mouts[1]["decodes"]:
-                return "model: Refs.decodeS fails on Refs.encodeS output"
+        if len(mouts) > 1 and "enc_refs" in obs:
+            # T2 tie, concrete layer: the JSON of the encoder WITH refs (which occurrence is a definition, which a reference
+            # and to what, which definitions carry an __id / which lists are marked) vs Shared.encodeC
+            want = pv.model_encoding_normal_form(mouts[1]["enc"])
+            if want != obs["enc_refs"]:
+                return "encoder with refs differs from Shared.encodeC: " + first_diff(obs["enc_refs"], want)
+            if not mouts[1]["wf"] or not mouts[1]["decodes"]:
+                return "model: Shared.decodeC fails on Shared.encodeC output (wf=%s)" % mouts[1]["wf"]
         return None
     if case["kind"] == "cleanup":
         if "exc" in obs:
@@ -1272,7 +1280,9 @@ def signature(case, obs, msg):
                 return "action-payload-not-json"
         if _pv_has(seen, lambda j: isinstance(j, dict) and "c" in j):
             return "state-holds-comparison"
-        if _pv_has(seen, _action_nonjson):
+        if _pv_has(seen, lambda j: isinstance(j, dict) and "a" in j):
+            # the model mirrors fixes/C11-action-payload.diff (every field of an Action goes through encode_to_dict):
+            # until it is applied, any value holding an Action is inside the region
             return "action-payload-not-json"
         if obs.get("aliased_lists"):
             return "aliased-list"
@@ -1294,8 +1304,14 @@ def signature(case, obs, msg):
         if p["kind"] == "typeError" and facts.get("action_nonjson"):
             return "action-payload-not-json"
         return None
-    if p["what"] in ("restore-diverges", "structure"):
-        if facts.get("aliased_lists") and ".append(" in case["src"] and p["what"] == "restore-diverges":
+    if p["what"] == "restore-diverges":
+        if facts.get("aliased_lists") and ".append(" in case["src"]:
+            return "aliased-list"
+    if p["what"] == "structure":
+        m = p.get("msg", "")
+        if "<action>" in m:
+            return "action-payload-not-json"
+        if "sharing differs (list)" in m:
             return "aliased-list"
     return None
 
@@ -1327,8 +1343,8 @@ def tags(case, obs):
             t.append("aliased-list")
         if "enc" in obs:
             t.append("json-level-compared")
-        if "skeleton" in obs:
-            t.append("refs-skeleton-compared")
+        if "enc_refs" in obs:
+            t.append("refs-json-compared")
         if obs.get("root_state"):
             t.append("root:State")
     elif k == "cleanup":
